@@ -149,6 +149,19 @@ func nextMarker() string {
 func (s *Session) Check(script string, vars []*Term, timeoutMs int) Result {
 	s.mu.Lock()
 	defer s.mu.Unlock()
+	r := s.check(script, vars, timeoutMs)
+	for try := 0; try < 2 && r.Status == "error" && (strings.HasPrefix(r.Err, "write:") || r.Err == "model fetch failed"); try++ {
+		// the process was gone (killed as the loser of an earlier portfolio race, or it crashed): restart it
+		s.kill()
+		r = s.check(script, vars, timeoutMs)
+	}
+	if r.Status == "error" && (strings.HasPrefix(r.Err, "write:") || r.Err == "model fetch failed") {
+		r.Status = "unknown" // a solver that cannot be kept alive decides nothing; never an error of the check
+	}
+	return r
+}
+
+func (s *Session) check(script string, vars []*Term, timeoutMs int) Result {
 	t0 := time.Now()
 	res := Result{Solver: s.Name}
 	if s.cmd == nil {
